@@ -170,7 +170,7 @@ prop('C06',
                  'correctly; reported moments equal the closed-form moments.')
 
 prop('C07',
-     [layout.r07_1, layout.r07_3, layout.r07_4, layout.r07_5, iface.r02_7, rng.r16_2,
+     [layout.r07_1, layout.r07_3, layout.r07_4, layout.r07_5, layout.r07_6, iface.r02_7, rng.r16_2,
       popmodels.r05_2, layout.r02_3],
      undecided=['sort stability of np.argsort for large selections',
                 'numerical equality with the per-individual evaluation'],
@@ -208,7 +208,7 @@ prop('C08',
                  'of the free set re-requests enabled sensitivities.')
 
 prop('C09',
-     [sbml.r09_1, sbml.r09_2, sbml.r09_3, sbml.r09_4, sbml.r09_5, sbml.r09_6, sbml.r09_7,
+     [sbml.r09_1, sbml.r09_2, sbml.r09_3, sbml.r09_4, sbml.r09_5, sbml.r09_6, sbml.r09_7, sbml.r09_8,
       switch.r08_7, reduced.r08_1, mech.r11_1, mech.r11_5, mech.r11_7, mech.r11_8],
      undecided=['the ODE solution and its derivatives (myokit / sundials)',
                 'myokit\'s SBML import beyond the SBML level-3 reading of '
@@ -254,7 +254,7 @@ prop('C10',
                  'protocol row by row.')
 
 prop('C11',
-     [mech.r11_1, mech.r11_2, mech.r11_5, mech.r11_7, mech.r11_8, sbml.r09_6, sbml.r09_7, copies.r11_3, copies.r11_6,
+     [mech.r11_1, mech.r11_2, mech.r11_5, mech.r11_7, mech.r11_8, sbml.r09_6, sbml.r09_7, sbml.r09_8, copies.r11_3, copies.r11_6,
       switch.r08_7],
      undecided=['equality of simulation results (ODE solver)'],
      assumptions=COMMON_ASSUME,
@@ -529,7 +529,8 @@ ENTRY = {
             'ALL.set_dim_names', 'ALL.set_parameter_names',
             'ALL.fix_parameters', 'ALL.set_outputs',
             'ALL.set_administration', 'ALL.set_covariate_names'],
-    'C18': ['ALL.sample_initial_parameters', 'SamplingController.run',
+    'C18': ['ALL.get_parameter_names', 'ALL.get_id',
+            'ALL.sample_initial_parameters', 'SamplingController.run',
             'SamplingController._format_chains',
             'OptimisationController.run', 'PosteriorPredictiveModel.*',
             '.compute_pointwise_loglikelihood'],
